@@ -283,6 +283,13 @@ impl BlockWrite for RollingWriter {
                     let file = self.directory.open_file(&next_file_number)?;
                     (next_file_number, file)
                 } else {
+                    if self.file_number.file_number() == u64::MAX {
+                        // a (stray) file can carry the largest number: there is no number left.
+                        return Err(io::Error::new(
+                            io::ErrorKind::Other,
+                            "wal file number overflow",
+                        ));
+                    }
                     let next_file_number = self.directory.files.inc(&self.file_number);
                     let file = create_file(&self.directory.dir, &next_file_number)?;
                     (next_file_number, file)
